@@ -131,6 +131,12 @@ Occupants == {"array_meta", "ragged", "file", "dir_foreign", "array_larger", "ar
 CreateVerdict(fn, occ, overwrite) ==
   IF ~overwrite THEN [out |-> "Raises", unchanged |-> TRUE]
   ELSE [out |-> "Any", unchanged |-> FALSE]
+(* the path is occupied by a symbolic link (to a file, to a directory, or dangling): with *)
+(* overwrite=False every creator must raise and leave link and target alone               *)
+LinkOccupants == {"symlink_file", "symlink_dir", "symlink_dangling"}
 CreateRows == {[fn |-> fn, occ |-> oc, overwrite |-> ow, form |-> fm, v |-> CreateVerdict(fn, oc, ow)] :
                  fn \in Creators, oc \in Occupants, ow \in BOOLEAN, fm \in {"str", "Path"}}
+              \cup
+              {[fn |-> fn, occ |-> oc, overwrite |-> FALSE, form |-> fm, v |-> CreateVerdict(fn, oc, FALSE)] :
+                 fn \in Creators, oc \in LinkOccupants, fm \in {"str", "Path"}}
 =============================================================================
